@@ -510,6 +510,12 @@ pub async fn cmd_server(args: Vec<String>) -> Result<()> {
         ("/iso-a/b_c".into(), "/iso_a/b-c".into()),
         ("/ISOAAA/topic".into(), "/isoaaa/topiC".into()),
         ("/abc/abcd".into(), "/abcd/abc".into()),
+        // names that coincide once namespace and topic are joined (with a character that is legal inside
+        // either part, or with nothing at all): the pair of strings is the key, not any concatenation
+        ("/abc_def/ghi".into(), "/abc/def_ghi".into()),
+        ("/abc-def/ghi".into(), "/abc/def-ghi".into()),
+        ("/abcd/efg".into(), "/abc/defg".into()),
+        ("/a_b_c/ddd".into(), "/a_b/c_ddd".into()),
     ];
     for (i, (x, y)) in pairs.iter().enumerate() {
         let r = isolation(&client, x, y, seed + i as u64).await;
@@ -658,7 +664,17 @@ pub async fn cmd_stall(args: Vec<String>) -> Result<()> {
                         keep.push(st);
                     }
                     left -= per.min(left);
-                    keep.push(raw_stream(&conn).await?);
+                    // the connection that carries these (possibly unanswerable) registrations must still be
+                    // able to register on another topic
+                    let mut other = raw_stream(&conn).await?;
+                    other.send(reg_frame("sub", TopicName::try_from(format!("{topic_a}-other").as_str())?)).await?;
+                    let r = match tokio::time::timeout(Duration::from_secs(8), first_reply(&mut other)).await {
+                        Ok((r, _)) => r,
+                        Err(_) => "no_answer_8s".to_string(),
+                    };
+                    log.emit("other_topic_roundtrip", json!({"res": if r == "ok" { "ok".to_string() } else { format!("registration on another topic answered: {r}") },
+                        "who": "connection_with_queued_registrations", "ms": 0}));
+                    keep.push(other);
                 }
                 log.emit("queued_registrations", json!({"attempted": n, "answered_ok": opened}));
                 Ok::<_, anyhow::Error>(keep)
